@@ -134,18 +134,28 @@ pub fn execute(case: &ChanCase) -> ChanRun {
         nested: nested_cfg,
         weak: case.weak,
         log_ops: true,
+        abort_unwind: true,
     };
     let exec = Exec::new(cfg, n);
     let ch: Arc<Channel<Payload>> = Arc::new(Channel::new());
     let mut sent_ids = Vec::new();
     // sequential prefix on the driver thread (pass-through hooks, logged as tid -1)
     for (i, s) in case.prefix.iter().enumerate() {
+        let ch2 = ch.clone();
+        let id = 400 + i as u32;
         if *s {
-            let id = 400 + i as u32;
             sent_ids.push(id);
-            do_send(&ch, id);
-        } else {
-            do_recv(&ch);
+        }
+        let send = *s;
+        let r = std::panic::catch_unwind(std::panic::AssertUnwindSafe(move || {
+            if send {
+                do_send(&ch2, id);
+            } else {
+                do_recv(&ch2);
+            }
+        }));
+        if r.is_err() {
+            vsched::driver_panic(vsched::take_last_panic().unwrap_or_default());
         }
     }
     // nested ops
@@ -210,13 +220,19 @@ pub fn execute(case: &ChanCase) -> ChanRun {
     };
     if completed {
         let c = vsched::call("drain", 0, 0);
-        let mut guard = 0;
-        while do_recv(&ch).is_some() {
-            guard += 1;
-            if guard > 20 {
-                vsched::violate("C06/drain-endless", "drain returned more than 20 values".into());
-                break;
+        let ch2 = ch.clone();
+        let r = std::panic::catch_unwind(std::panic::AssertUnwindSafe(move || {
+            let mut guard = 0;
+            while do_recv(&ch2).is_some() {
+                guard += 1;
+                if guard > 20 {
+                    vsched::violate("C06/drain-endless", "drain returned more than 20 values".into());
+                    break;
+                }
             }
+        }));
+        if r.is_err() {
+            vsched::driver_panic(vsched::take_last_panic().unwrap_or_default());
         }
         vsched::ret(c, 0);
         match Arc::try_unwrap(ch) {
